@@ -117,6 +117,7 @@ func TDExhaustive(full bool) []*TDCase {
 			}
 		}
 	}
+	paths = append(paths, "../a", "../../a", "../a/b", ".a/b", "./a", "a/../b", "..a/b", "a/.b")
 	vals := []string{"a", "b", "ab", "a_b", "b_c"}
 	var kvs []map[string]string
 	kvs = append(kvs, map[string]string{})
